@@ -71,6 +71,58 @@ def with_dumps(ops, d):
     return out
 
 
+def gen_two_failures(rng, sid, first, second, mode1, mode2):
+    """ReplicaCount 3 on exactly 3 members: two members are lost one after the other, with stabilisation and balancer runs
+    in between (the cluster is below ReplicaCount members after the first loss); the last member must still serve every
+    acknowledged write"""
+    d = "c02t%d" % sid
+    keys = [dmaplib.hx("%s-k%d" % (d, i)) for i in range(40)]
+    ops = []
+    for i, k in enumerate(keys):
+        ops.append({"op": "put", "c": rng.choice(["emb0", "emb1", "emb2", "cc"]), "d": d, "k": k, "v": dmaplib.hx("%s#1" % k[-6:])})
+    for k in keys[::5]:
+        ops.append({"op": "del", "c": "cc", "d": d, "k": k})
+    live = [0, 1, 2]
+    ops.append({"op": "stop", "m": first, "c": mode1})
+    live.remove(first)
+    ops.append({"op": "waitstable", "ms": 25000})
+    for m in live:
+        ops.append({"op": "balance", "m": m})
+    ops.append({"op": "waitstable", "ms": 25000})
+    for k in keys[1::7]:
+        ops.append({"op": "put", "c": "emb%d" % rng.choice(live), "d": d, "k": k, "v": dmaplib.hx("%s#2" % k[-6:])})
+    ops.append({"op": "hstate", "d": d})
+    ops.append({"op": "stop", "m": second, "c": mode2})
+    live.remove(second)
+    ops.append({"op": "waitstable", "ms": 25000})
+    for k in keys:
+        ops.append({"op": "get", "c": "emb%d" % live[0], "d": d, "k": k})
+        ops.append({"op": "get", "c": "cc", "d": d, "k": k})
+    cluster = {"members": 3, "replicas": 3, "wq": 1, "rq": 1, "partitions": 7, "table": 4096, "readrepair": False, "evict_workers": 1}
+    return {"id": sid, "cluster": cluster, "ops": ops, "_failed": [(first, mode1), (second, mode2)], "_model": False, "_two": second}
+
+
+def colocated_before_loss(sc, obs):
+    """D40 after a fail-over: below ReplicaCount members the re-balancing can leave the primary AND the backup copy of a
+    partition on one member (the previous owner hands the primary fragment to the new owner, which already holds the backup
+    copy and, being a current backup owner itself, never passes that on). Keys of which the member lost next held two
+    copies of different kinds while no other member held any are explained by that finding; a key with a single remaining
+    copy is not."""
+    victim = sc["_two"]
+    pre = None
+    for op, ob in zip(sc["ops"], obs):
+        if op["op"] == "hstate" and ob.get("r") == "ok":
+            pre = ob
+    if pre is None:
+        return set()
+    out = set()
+    for key in {c[3] for c in pre["copies"]}:
+        cs = [c for c in pre["copies"] if c[3] == key]
+        if all(c[0] == victim for c in cs) and {c[1] for c in cs} == {"p", "b"}:
+            out.add(key)
+    return out
+
+
 PUT_POINTS = ["put.local", "put.backup", "delete.others"]
 
 
@@ -116,7 +168,7 @@ def judge(sc, obs):
     if len(obs) < len(sc["ops"]):
         return ("env", "scenario aborted: %s" % obs)
     ref = {}
-    uncertain = set()
+    uncertain = set(sc.get("_d40") or ())
     stable = True
     for i, (op, ob) in enumerate(zip(sc["ops"], obs)):
         o = op["op"]
@@ -132,7 +184,8 @@ def judge(sc, obs):
         if o == "put":
             if r == "ok":
                 ref[op["k"]] = op["v"]
-                uncertain.discard(op["k"])
+                if op["k"] not in (sc.get("_d40") or ()):
+                    uncertain.discard(op["k"])
             else:
                 if stable:
                     return (i, "Put through %s on the re-stabilised cluster returned %s" % (op["c"], r))
@@ -170,19 +223,30 @@ def run(res):
     for i in range(n):
         rng = vlib.rng_for(res.seed, PID, i)
         R = rng.choice([2, 2, 3])
-        N = rng.choice([3, 4, 5]) if R == 2 else rng.choice([4, 5])
+        N = rng.choice([3, 4, 5]) if R == 2 else rng.choice([3, 4, 5])
         scs.append(gen(rng, i, N, R, rng.random() < 0.5))
+    orders = [(a, b) for a in range(3) for b in range(3) if a != b]
+    for j, (a, b) in enumerate(orders if res.tier != "quick" else orders[::2]):
+        rng = vlib.rng_for(res.seed, PID, "two", j)
+        scs.append(gen_two_failures(rng, 7000 + j, a, b, rng.choice(["graceful", "abrupt"]), rng.choice(["graceful", "abrupt"])))
     nop = 6 if res.tier == "quick" else 45
     for j in range(nop):
         scs.append(gen_opcrash(vlib.rng_for(res.seed, PID, "opcrash", j), 5000 + j, PUT_POINTS[j % len(PUT_POINTS)]))
     results = memberlib.run_membership(scs, jobs=7)
     failures, envfail = [], 0
     roles = {}
+    kf40 = vlib.match_known(PID, {"kind": "copies-colocated-on-lost-member"})
+    d40n = 0
     for sc in scs:
         r = results[sc["id"]]
         if r.get("env", {}).get("error"):
             envfail += 1
             continue
+        if "_two" in sc and kf40 and len(r["obs"]) >= len(sc["ops"]):
+            ks = colocated_before_loss(sc, r["obs"])
+            if ks:
+                sc["_d40"] = ks
+                d40n += len(ks)
         v = judge(sc, r["obs"])
         if v and v[0] == "env":
             envfail += 1
@@ -235,6 +299,9 @@ def run(res):
     res.coverage["model"] = dict(mstats, transition_cases=len(tcases), state_cases=len(scases), crash_state_cases=len(ccases),
                                  transition_mismatches=len(badt), state_mismatches=len(bads), crash_state_mismatches=len(badc))
     res.coverage["fail_points"] = {k: {"scenarios": v[0], "fired": v[1]} for k, v in fired.items()}
+    res.coverage["d40_keys"] = d40n
+    if d40n:
+        res.known_finding(kf40["description"] + " [this run: %d keys lost that way after a fail-over below ReplicaCount members]" % d40n)
     if not proofs_ok and not res.violations:
         broken = [o for o in res.obligations if not o["ok"]]
         res.violation({"kind": "obligation-broken", "failed": [o["theorem"] for o in broken],
@@ -245,7 +312,7 @@ def run(res):
                 "through every member and a cluster client; then 1..R-1 members stop (the coordinator or a random member; graceful Shutdown or abrupt = memberlist stopped "
                 "without leave + listener closed), optionally with operations issued during detection (unacknowledged ones leave their key uncertain); after "
                 "re-stabilisation every key is read from EVERY survivor and from a fresh cluster client and must be the last acknowledged value (deleted keys not-found); "
-                "then a post-failure workload and reads; plus scenarios in which the partition owner stops abruptly at a fail point inside a Put (after "
+                "then a post-failure workload and reads; ReplicaCount 3 on exactly 3 members losing two of them one after the other with balancer runs in between; plus scenarios in which the partition owner stops abruptly at a fail point inside a Put (after "
                 "its own write, after a backup write) or a Delete (after the remote copies were removed); half of the scenarios dump every copy after every "
                 "operation and are compared with Model/Balance.v + BalanceCrash.v inside Coq (transitions, invariant, member-loss invariant); "
                 "non-trivial = scenarios that started and re-stabilised",
